@@ -46,8 +46,9 @@ def intersect_halfplanes(halfplanes):
     points : list
         Points of the polygon.
     """
-    # reserve more space than required, there might be duplicates
-    points = np.empty((3 * len(halfplanes), 2))
+    # every pair of halfplanes can contribute a point when lines coincide
+    # (identical tetrahedra, shared faces), so reserve one row per pair
+    points = np.empty((len(halfplanes) * (len(halfplanes) - 1) // 2 + 1, 2))
     n_intersections = 0
     for i in range(len(halfplanes)):
         for j in range(i + 1, len(halfplanes)):
